@@ -174,7 +174,7 @@ func verifMain(prop string) {
 		"virtual clock: time advances only when every thread is blocked or as an explicit (costed) scheduling alternative",
 	}
 	var parts []vx.Part
-	deadlineQ, deadlineT := 6*time.Minute, 45*time.Minute
+	deadlineQ, deadlineT := 7*time.Minute, 40*time.Minute
 	only := os.Getenv("VERIF_ONLY")
 	if c.Replay != "" {
 		rf, err := c.LoadReplay()
@@ -194,13 +194,23 @@ func verifMain(prop string) {
 		os.Exit(c.Finish([]vx.Part{{Scenario: rf.Scenario, Stats: st, Exec: exec}}, nil))
 	}
 	bounds := []map[string]interface{}{}
+	var todo []space
 	for _, sp := range spaces(prop, c.Thorough()) {
-		if only != "" && only != sp.name {
-			continue
+		if only == "" || only == sp.name {
+			todo = append(todo, sp)
 		}
+	}
+	total := c.DeadlineAfter(deadlineQ, deadlineT)
+	for i, sp := range todo {
 		sp := sp
 		exec := func(p []vx.Point) vx.Result { return pool.ExecArg(p, sp.name) }
-		e := &vx.Explorer{Name: sp.name, BoundEnv: sp.d, BoundSch: sp.p, BoundSum: sp.sum, Exec: exec, Workers: nw, Deadline: c.DeadlineAfter(deadlineQ, deadlineT)}
+		// every scenario gets an equal share of the time that is left, so that a slow machine cuts each
+		// scenario a little instead of dropping the last ones entirely (a cut is reported as exhaustive:false)
+		slice := time.Until(total) / time.Duration(len(todo)-i)
+		if slice < 20*time.Second {
+			slice = 20 * time.Second
+		}
+		e := &vx.Explorer{Name: sp.name, BoundEnv: sp.d, BoundSch: sp.p, BoundSum: sp.sum, Exec: exec, Workers: nw, Deadline: time.Now().Add(slice)}
 		t0 := time.Now()
 		st := e.Explore()
 		fmt.Printf("  scenario %-22s P<=%d D<=%d executions=%d outcomes=%d scripts=%d exhaustive=%v %.1fs\n", sp.name, sp.p, sp.d, st.Executions, len(st.Outcomes), len(st.NonTrivial), st.Exhaustive, time.Since(t0).Seconds())
